@@ -10,7 +10,11 @@
                              gap: n<k> (Number k ≥ 0, already truncated)  |  s<hex> (String)
                              tok: z | t | f | n<hex lexeme> | s<hex> | a<count> | o<count> (then key s<hex>, value)
                              -> "ok <hex>"  |  "bad"
+    SM <gap> <tok>*          mechanism-level serialiser Mech.strM; extra tokens u (undefined) and F (function)
     SL <gap> <n> <item>*n <tok>*   the same with a replacer allow-list of n items (s<hex> | n<hex canonical text>)
+    SR <gap> <mode> D <s-key>* Z <s-key>* W <s-key>* V <tok>*   stringify with toJSON hooks / a replacer function from the
+                             catalogue `catHooks` -> "ok <hex text> C <log>" | "undef C <log>"
+    RM <hex text> T <k>* X <k>* S <k>? C <hex const> D <k>*   JSON.parse with a reviver that edits its holder (ReviverMut.lean)
     RV <hex text> D <s-key>* Z <s-key>*   JSON.parse with a pure reviver (undefined for D keys, null for Z keys)
                              -> "ok <dump with h = hole> C <hex keys of the calls joined by '.'>" | "undef C …" | "err"
     Q <hex>                  QuoteJSONString -> "ok <hex>"
@@ -20,6 +24,10 @@
 import GojaModel.Base.Proto
 import GojaModel.C19.Model
 import GojaModel.C19.Reviver
+import GojaModel.C19.Replacer
+import GojaModel.C19.Tok
+import GojaModel.C19.ReviverMut
+import GojaModel.C19.Mech
 
 namespace GojaModel.C19.Driver
 open GojaModel.Proto GojaModel.C19
@@ -97,21 +105,29 @@ partial def fixEsc : Str → Str
 /-- the text as goja's UTF-8 based tokenizer sees it (documented exception, README §JSON) -/
 def fixText (t : Str) : Str := fixEsc (fixLone t)
 
+/-- raw dump of a syntactic tree (before object building): lexemes, not bits -/
+def rawKey (o : Option JVal) : String :=
+  match o with
+  | none => "err"
+  | some v => String.ofList (dump v)
+
 def doParse (h : String) : String :=
   match unhex h with
   | none => "bad"
   | some t =>
+    -- mechanism-level model (Go token stream + goja's decode functions) must agree with the spec-level parser
+    let mech := if rawKey (gojaParseRaw t) == rawKey (parseRaw t) then "" else " MECHDIFF " ++ rawKey (gojaParseRaw t)
     match parseRaw t with
-    | none => "err"
+    | none => "err" ++ mech
     | some raw =>
       let v := build NumCanon.id raw
       let base := "ok " ++ String.ofList (dump v)
       let t' := fixText t
-      if t' != t then
+      (if t' != t then
         match parseRaw t' with
         | some raw' => base ++ " L " ++ String.ofList (dump (build NumCanon.id raw'))
         | none => base ++ " L err"
-      else base
+      else base) ++ mech
 
 /-- value tokens → JVal (insertion-ordered members), rest of tokens -/
 partial def readVal : List String → Option (JVal × List String)
@@ -226,13 +242,170 @@ def doRevive (ws : List String) : String :=
         res ++ " C " ++ ".".intercalate ((calls [] v).map fun k => String.ofList (hexS k))
   | _ => "bad"
 
+def hexStr (k : Str) : String := String.ofList (hexS k)
+
+def kindOf : Option RVal → String
+  | none => "u"
+  | some .hole => "u"
+  | some (.num _) => "number"
+  | some (.str _) => "string"
+  | some (.bool _) => "boolean"
+  | some _ => "object"
+
+/-- `RM <hex text> T <s-key>* X <s-key>* S <s-key>? C <hex const text> D <s-key>*` : JSON.parse with a reviver that, when called
+    for a key in T, deletes the keys X from `this` and assigns the parsed constant C to `this[S]`; it returns undefined
+    for the keys in D and its value otherwise; every call is logged as <hex key>:<typeof value | u> -/
+def doReviveM (ws : List String) : String :=
+  match ws with
+  | h :: "T" :: rest =>
+    let keysOf (l : List String) : List Str := l.filterMap fun t =>
+      match t.toList with
+      | 's' :: x => unhex (String.ofList x)
+      | _ => none
+    let ts := rest.takeWhile (· != "X")
+    let r1 := (rest.dropWhile (· != "X")).drop 1
+    let xs := r1.takeWhile (· != "S")
+    let r2 := (r1.dropWhile (· != "S")).drop 1
+    let ss := r2.takeWhile (· != "C")
+    let r3 := (r2.dropWhile (· != "C")).drop 1
+    let cs := r3.takeWhile (· != "D")
+    let dsl := (r3.dropWhile (· != "D")).drop 1
+    let T := keysOf ts
+    let X := keysOf xs
+    let S := (keysOf ss).head?
+    let D := keysOf dsl
+    let C : Option RVal := match cs with
+      | c :: _ => (match unhex c with
+                   | some ct => (parse NumCanon.id ct).map emb
+                   | none => none)
+      | [] => none
+    match unhex h with
+    | none => "bad"
+    | some t =>
+      match parse NumCanon.id t with
+      | none => "err"
+      | some v =>
+        let R : ReviverM (List String) := fun log holder k x =>
+          let h1 := if T.contains k then
+              let hd := X.foldl (fun acc d => rDelete acc d) holder
+              (match S, C with
+               | some sk, some c => rDefine hd sk c
+               | _, _ => hd)
+            else holder
+          (log ++ [hexStr k ++ ":" ++ kindOf x], if D.contains k then none else (match x with | some .hole => none | o => o), h1)
+        match reviveRootM R (4000 + 8 * t.length) [] v with
+        | some (log, some y) => "ok " ++ String.ofList (rdump y) ++ " C " ++ ".".intercalate log
+        | some (log, none) => "undef C " ++ ".".intercalate log
+        | none => "fuel"
+  | _ => "bad"
+
+/-- fingerprint of a holder as the JS side logs it: A / O and the own enumerable keys -/
+def holderFp : JVal → String
+  | .arr xs => "A" ++ "/".intercalate ((List.range xs.length).map fun i => hexStr (idxKey i))
+  | .obj ms => "O" ++ "/".intercalate (ms.map fun p => hexStr p.1)
+  | _ => "?"
+
+def isArr : JVal → Bool
+  | .arr _ => true
+  | _ => false
+
+/-- the hook catalogue of the correspondence (state = log lines).
+    mode letters: a = Array.prototype.toJSON = k ↦ k ; o = Object.prototype.toJSON = k ↦ (array ? this : [k]) ;
+                  b = both ; r = replacer function present: undefined for D keys, null for Z keys, [v] for W keys -/
+def catHooks (mode : String) (D Z W : List Str) : Hooks (List String) :=
+  let a := mode.contains 'a' || mode.contains 'b'
+  let o := mode.contains 'o' || mode.contains 'b'
+  { hasTJ := fun v => if isArr v then a || o else o
+    toJSON := fun log k v =>
+      (log ++ ["t:" ++ hexStr k],
+       some (if isArr v then (if a then .str k else v) else .arr [.str k]))
+    repl := if mode.contains 'r' then
+        some (fun log h k v =>
+          (log ++ ["r:" ++ hexStr k ++ "@" ++ holderFp h],
+           if D.contains k then none else if Z.contains k then some .null
+           else if W.contains k then (match v with | some x => some (.arr [x]) | none => none) else v))
+      else none }
+
+/-- `SR <gap> <mode> D <s-key>* Z <s-key>* W <s-key>* V <tok>*` -/
+def doStringifyH (ws : List String) : String :=
+  match ws with
+  | g :: mode :: "D" :: rest =>
+    let keysOf (l : List String) : List Str := l.filterMap fun t =>
+      match t.toList with
+      | 's' :: x => unhex (String.ofList x)
+      | _ => none
+    let ds := rest.takeWhile (· != "Z")
+    let r1 := (rest.dropWhile (· != "Z")).drop 1
+    let zs := r1.takeWhile (· != "W")
+    let r2 := (r1.dropWhile (· != "W")).drop 1
+    let wsk := r2.takeWhile (· != "V")
+    let toks := (r2.dropWhile (· != "V")).drop 1
+    match readGap g, readVal toks with
+    | some gap, some (v, []) =>
+      let bv := build NumCanon.id v
+      match stringifyH (catHooks mode (keysOf ds) (keysOf zs) (keysOf wsk)) gap (2000 + 4 * toks.length) [] bv with
+      | some (log, some txt) => "ok " ++ hexStr txt ++ " C " ++ ".".intercalate log
+      | some (log, none) => "undef C " ++ ".".intercalate log
+      | none => "fuel"
+    | _, _ => "bad"
+  | _ => "bad"
+
+/-- value tokens with undefined leaves (`u` undefined, `F` a function) → MVal -/
+partial def readMVal : List String → Option (MVal × List String)
+  | [] => none
+  | tok :: rest =>
+    match tok.toList with
+    | ['u'] => some (.undef, rest)
+    | ['F'] => some (.undef, rest)
+    | ['z'] => some (.null, rest)
+    | ['t'] => some (.bool true, rest)
+    | ['f'] => some (.bool false, rest)
+    | 'n' :: h => (unhex (String.ofList h)).map fun l => (.num l, rest)
+    | 's' :: h => (unhex (String.ofList h)).map fun s => (.str s, rest)
+    | 'a' :: n =>
+      let rec elems : Nat → List String → List MVal → Option (List MVal × List String)
+        | 0, r, acc => some (acc.reverse, r)
+        | k + 1, r, acc => match readMVal r with
+          | some (v, r') => elems k r' (v :: acc)
+          | none => none
+      (String.ofList n).toNat?.bind fun k => (elems k rest []).map fun (xs, r) => (.arr xs, r)
+    | 'o' :: n =>
+      let rec mems : Nat → List String → List (Str × MVal) → Option (List (Str × MVal) × List String)
+        | 0, r, acc => some (acc.reverse, r)
+        | k + 1, r, acc => match r with
+          | key :: r1 =>
+            match key.toList with
+            | 's' :: h =>
+              match unhex (String.ofList h), readMVal r1 with
+              | some ks, some (v, r') => mems k r' ((ks, v) :: acc)
+              | _, _ => none
+            | _ => none
+          | [] => none
+      (String.ofList n).toNat?.bind fun k => (mems k rest []).map fun (ms, r) => (.obj ms, r)
+    | _ => none
+
+/-- `SM <gap> <tok>*` : the mechanism-level serialiser (Mech.strM: buffer, ctx.indent, Truncate) on a value with
+    undefined leaves; keys must be distinct non-index strings in insertion order -/
+def doStringifyM (ws : List String) : String :=
+  match ws with
+  | g :: toks =>
+    match readGap g, readMVal toks with
+    | some gap, some (v, []) =>
+      let r := strM gap v [] []
+      if r.2.2 then "ok " ++ String.ofList (hexS r.1) ++ (if r.2.1 == [] then "" else " INDENT-NOT-RESTORED") else "undef"
+    | _, _ => "bad"
+  | [] => "bad"
+
 def step (line : String) : String :=
   match words line with
   | ["P"] => doParse ""
   | ["P", h] => doParse h
   | "S" :: rest => doStringify rest
   | "SL" :: rest => doStringifyPL rest
+  | "SM" :: rest => doStringifyM rest
   | "RV" :: rest => doRevive rest
+  | "SR" :: rest => doStringifyH rest
+  | "RM" :: rest => doReviveM rest
   | ["Q", h] => match unhex h with
     | some s => "ok " ++ String.ofList (hexS (quote s))
     | none => "bad"
